@@ -109,6 +109,10 @@ fn native_for<G: ark_ec::AffineRepr + 'static>(kind: &str, rp: &serde_json::Valu
             let case: scen_c05::C05Case = serde_json::from_value(rp["case"].clone()).unwrap();
             scen_c05::c05_native::<G>(&case, seed, m, torsion)
         }
+        "c07torsion" => match &torsion {
+            Some(t) => replay::c07_torsion_native::<G>(seed, t),
+            None => vec![],
+        },
         "c09" => replay::c09_native::<G>(&shape(), seed),
         "c06" => replay::c06_native::<G>(&shape(), seed),
         "c07" => {
@@ -531,6 +535,14 @@ fn tasks_for(prop: &str, tier: &str, seed: u64) -> Vec<Task> {
                     }),
                 });
             }
+            {
+                let replay = serde_json::json!({"kind": "c07torsion", "seed": seed});
+                out.push(Task {
+                    name: "C07:native_small_order_residual:curve25519".into(),
+                    replay: replay.clone(),
+                    run: Box::new(move || native_job("C07", "native_small_order_residual", "curve25519", seed, replay::c07_torsion_native::<Ed>(seed, &ed_torsion()), replay)),
+                });
+            }
             for (k, case) in scen_c07::c07_cases(thorough).into_iter().enumerate() {
                 let cs: Vec<&str> = if thorough { curves.clone() } else { vec![["secq256k1", "zorro", "curve25519"][k % 3]] };
                 for c in cs {
@@ -809,7 +821,7 @@ fn main() {
                     println!("REPLAY {}", if any_wrong { "REPRODUCED" } else { "NOT-REPRODUCED" });
                     std::process::exit(if any_wrong { 1 } else { 0 });
                 }
-                Some(kind @ ("c10" | "c13" | "c15" | "c07" | "c06" | "c09" | "c05" | "c04" | "c03" | "c18" | "c17" | "c16" | "c08" | "c11" | "c12" | "c04bits")) => {
+                Some(kind @ ("c10" | "c13" | "c15" | "c07" | "c07torsion" | "c06" | "c09" | "c05" | "c04" | "c03" | "c18" | "c17" | "c16" | "c08" | "c11" | "c12" | "c04bits")) => {
                     let seed = rp["seed"].as_u64().unwrap_or(0);
                     let curve = v["curve"].as_str().or(rp["curve"].as_str()).unwrap_or("secq256k1").to_string();
                     let mut any_wrong = false;
